@@ -165,6 +165,11 @@ func newWorld(sc int, rng interface{ Intn(int) int }) *world {
 	}
 	if T.prop == "C10" && rng.Intn(2) == 0 {
 		w.tmpls = []tmplCfg{{name: "X-Tenant-ID", text: "{{.Claims.org.id}}"}, {name: "x-lower-name", text: "{{index .Claims.arr 5}}"}, {name: "X-USER-Sub", text: "{{.Claims.sub}}"}}
+		if rng.Intn(2) == 0 {
+			// templates that fail only after having produced output (for all or for some claim shapes), followed by ones that succeed
+			w.tmpls = []tmplCfg{{name: "X-Tpl-Partial", text: "{{.Claims.email}}|{{index .Claims.arr 5}}"}, {name: "X-Tpl-Email", text: "{{.Claims.email}}"},
+				{name: "X-Tpl-Group", text: "first={{.Claims.sub}};{{index .Claims.groups 0}}"}, {name: "X-Tpl-Sub", text: "{{.Claims.sub}}"}}
+		}
 	}
 	for i := range w.tmpls {
 		w.tmpls[i].t = template.Must(template.New(w.tmpls[i].name).Parse(w.tmpls[i].text))
@@ -663,10 +668,12 @@ func (w *world) observe(rs reqSpec, r *http.Request, clientHdrs [][]string, rec 
 		obs["body"] = kind
 		if path == "/cb" && query.Get("error") != "" {
 			if kind == "html" {
+				obs["msg"] = "(no message paragraph found in the HTML body)"
 				if m := pRe.FindStringSubmatch(body); m != nil {
 					obs["msg"] = m[1]
 				}
 			} else if kind == "json" {
+				obs["msg"] = "(body is not a JSON object)"
 				var jb map[string]interface{}
 				if json.Unmarshal([]byte(body), &jb) == nil {
 					obs["msg"], _ = jb["error_description"].(string)
